@@ -6,8 +6,13 @@ __all__ = ['eq', 'in_']
 
 def _eq_attrs(x, y, attrs):
     for attr in attrs:
-        if hasattr(x, attr) and not eq(getattr(x, attr), getattr(y, attr)):
-            return False
+        if hasattr(x, attr):
+            a, b = getattr(x, attr), getattr(y, attr)
+            if isinstance(a, pd.Index) and isinstance(b, pd.Index): # labels one by one (a == b is False on a nan label)
+                if len(a) != len(b) or not (len(a) == 0 or np.all(veq(a, b))):
+                    return False
+            elif not eq(a, b):
+                return False
     return True
 
 
